@@ -9,7 +9,7 @@ package main
 // cfg: max sb batch c b cq(1/0) jam(ms,0=1h).  Ops (model semantics in Model/C09.lean):
 //
 //	s:<k>:<kind> Schedule job k          t:<k>:<kind> ScheduleWithTimeout(30ms)   i:<k>:<kind> Invoke
-//	it:<k>:<kind> InvokeWithTimeout(30ms)
+//	it:<k>:<kind> InvokeWithTimeout(30ms)          t:<k>:<kind>:<ns> / it:<k>:<kind>:<ns> the same with a timeout of <ns> nanoseconds
 //	as:<k>:<kind> Schedule in its own goroutine (parks at `sched`)   j:<k> its answer
 //	r:<k> open the gate of job k         w:<count>/<busy>/<fin> wait for these counters (hint), then observe
 //	park:<pt>:<n>  wp:<pt>:<n>  rel:<pt>   close  aclose  jclose  pre:<n>  exp:<ms>  sleep:<ms>  expire:<n>
@@ -143,6 +143,17 @@ func c09Err(err error) string {
 		return "qclosed"
 	}
 	return "err-other"
+}
+
+// timeout of a `t` / `it` op: 30 ms, or the optional fourth field in nanoseconds (0, tiny and negative values:
+// the call must still answer Timeout on a full queue and nil when there is room)
+func c09Timeout(f []string) time.Duration {
+	if len(f) > 3 {
+		if ns, err := strconv.Atoi(f[3]); err == nil {
+			return time.Duration(ns)
+		}
+	}
+	return 30 * time.Millisecond
 }
 
 func c09Dur(ms int) time.Duration {
@@ -441,10 +452,11 @@ func (e *c09Env) op(tok string) string {
 		e.settle()
 		return fmt.Sprintf("s%d=%s", num(1), r)
 	case "t":
+		to := c09Timeout(f)
 		t0 := time.Now()
-		err := e.pool.ScheduleWithTimeout(e.mkJob(num(1), f[2], 0), 30*time.Millisecond)
+		err := e.pool.ScheduleWithTimeout(e.mkJob(num(1), f[2], 0), to)
 		r := c09Err(err)
-		if err == worker.ErrWorkerPoolScheduleTimeout && time.Since(t0) < 30*time.Millisecond {
+		if err == worker.ErrWorkerPoolScheduleTimeout && time.Since(t0) < to {
 			r = "viol-early-timeout"
 		}
 		e.settle()
@@ -452,10 +464,11 @@ func (e *c09Env) op(tok string) string {
 	case "it":
 		// InvokeWithTimeout: the error of ScheduleWithTimeout must come back to the caller
 		job := e.mkJob(num(1), f[2], 0)
+		to := c09Timeout(f)
 		t0 := time.Now()
-		err := worker.NewDefaultInvokable[int](e.pool, func(int) { job() }).InvokeWithTimeout(num(1), 30*time.Millisecond)
+		err := worker.NewDefaultInvokable[int](e.pool, func(int) { job() }).InvokeWithTimeout(num(1), to)
 		r := c09Err(err)
-		if err == worker.ErrWorkerPoolScheduleTimeout && time.Since(t0) < 30*time.Millisecond {
+		if err == worker.ErrWorkerPoolScheduleTimeout && time.Since(t0) < to {
 			r = "viol-early-timeout"
 		}
 		e.settle()
@@ -894,8 +907,12 @@ func c09Gen(tier string, rng *rand.Rand, emit func(string)) map[string]interface
 			for ; k <= c+b; k++ {
 				ops = append(ops, fmt.Sprintf("s:%d:f", k))
 			}
-			ops = append(ops, fmt.Sprintf("s:%d:f", k), fmt.Sprintf("t:%d:f", k+1), fmt.Sprintf("i:%d:f", k+2), fmt.Sprintf("it:%d:f", k+3), "w:1/1/0", "r:0",
-				fmt.Sprintf("w:1/0/%d", c+b+1), fmt.Sprintf("t:%d:f", k+4), fmt.Sprintf("w:1/0/%d", c+b+2), fmt.Sprintf("it:%d:f", k+5), fmt.Sprintf("w:1/0/%d", c+b+3))
+			// zero, tiny and negative timeouts on the full queue (timeout/3 = 0: no retry interval), then with room again
+			tiny := []int{0, 1, 2, -1000}[(c+2*b)%4]
+			ops = append(ops, fmt.Sprintf("s:%d:f", k), fmt.Sprintf("t:%d:f", k+1), fmt.Sprintf("i:%d:f", k+2), fmt.Sprintf("it:%d:f", k+3),
+				fmt.Sprintf("t:%d:f:%d", k+6, tiny), fmt.Sprintf("it:%d:f:%d", k+7, []int{-1, 0, 2}[b]), "w:1/1/0", "r:0",
+				fmt.Sprintf("w:1/0/%d", c+b+1), fmt.Sprintf("t:%d:f", k+4), fmt.Sprintf("w:1/0/%d", c+b+2), fmt.Sprintf("it:%d:f", k+5), fmt.Sprintf("w:1/0/%d", c+b+3),
+				fmt.Sprintf("t:%d:f:%d", k+8, tiny), fmt.Sprintf("w:1/0/%d", c+b+4))
 			sched(fmt.Sprintf("max=1 sb=1 batch=0 c=%d b=%d", c, b), ops...)
 		}
 	}
